@@ -534,9 +534,74 @@ def enc_shard(task):
     return part
 
 
+# ---- histories on ONE reused encoder / decoder object ---------------------------------------------
+H_DOCS = ["s", True, 1, 1.0, None, [True, 1], {"a": False, "b": [0, True]}]
+H_METHODS = ("encode", "iterencode")
+H_MAXLEN = 3
+
+
+def hist_ops():
+    return [(m, i) for i in range(len(H_DOCS)) for m in H_METHODS]
+
+
+def hist_count():
+    n = len(hist_ops())
+    return sum(n ** k for k in range(1, H_MAXLEN + 1))
+
+
+def run_history(adapter, hist):
+    """Outputs (text or ('exc', name)) of each step of a history on one fresh CELJSONEncoder and one fresh CELJSONDecoder."""
+    enc = adapter.CELJSONEncoder()
+    dec = adapter.CELJSONDecoder()
+    out = []
+    for m, i in hist:
+        value = adapter.json_to_cel(H_DOCS[i])
+        r = call(lambda: enc.encode(value) if m == "encode" else "".join(enc.iterencode(value)))
+        d = call(lambda: dec.decode(json.dumps(H_DOCS[i])))
+        out.append((r, d))
+    return out
+
+
+def hist_shard(task):
+    lo, hi = task
+    import celpy.adapter as adapter
+    part = runner.Part()
+    ops = hist_ops()
+    idx = n = 0
+    for k in range(1, H_MAXLEN + 1):
+        for hist in itertools.product(ops, repeat=k):
+            if lo <= idx < hi:
+                n += 1
+                m, i = hist[-1]
+                doc = H_DOCS[i]
+                r, d = run_history(adapter, hist)[-1]          # the last step is judged; every prefix is its own history
+                part.case()
+                part.outcome(f"history:{m}:{jsonref.kind(doc)}")
+                wit = {"check": "history", "history": [[mm, H_DOCS[ii]] for mm, ii in hist]}
+                after = "-after-".join(reversed([mm + ":" + jsonref.kind(H_DOCS[ii]) for mm, ii in hist[-2:]]))
+                if r[0] == "exc":
+                    viol(part, "encoder-raised", f"history:{after}:encoder-raised:{r[1]}", wit, f"step {len(hist)} of {wit['history']} on one CELJSONEncoder raised {r[1]}")
+                else:
+                    back = call(lambda: json.loads(r[1]))
+                    diff = ("root", "json", "unparsable") if back[0] == "exc" else jsonref.first_diff(doc, back[1])
+                    if diff:
+                        viol(part, "lossy-round-trip", f"history:{after}:{coarse(diff[1])}->{coarse(diff[2])}", wit,
+                             f"step {len(hist)} of {wit['history']} on one CELJSONEncoder gave {r[1]!r}: at {list(diff[0]) if diff[0] != 'root' else 'root'} expected {diff[1]}, got {diff[2]}")
+                if d[0] == "exc":
+                    viol(part, "conversion-raised", f"history:{after}:decoder-raised:{d[1]}", wit, f"step {len(hist)} of {wit['history']} on one CELJSONDecoder raised {d[1]}")
+                else:
+                    dd = jsonref.desc_diff(jsonref.expected_desc(doc), describe(d[1]))
+                    if dd:
+                        viol(part, "wrong-class", f"history:{after}:decoder:{coarse(dd[1])}->{coarse(dd[2])}", wit,
+                             f"step {len(hist)} of {wit['history']} on one CELJSONDecoder: at {dd[0]} expected {dd[1]}, got {dd[2]}")
+            idx += 1
+    part.space("histories:encoder-decoder-reuse", n, n)
+    return part
+
+
 def plain_shard(task):
     """Shards that create no CEL environment (conversion, encoding): one pool for both."""
-    return conv_shard(task[1]) if task[0] == "conv" else enc_shard(task[1])
+    return conv_shard(task[1]) if task[0] == "conv" else hist_shard(task[1]) if task[0] == "hist" else enc_shard(task[1])
 
 
 # ---- model validation against the repository's pinned expectations ---------------------------------
@@ -582,8 +647,9 @@ def run(ctx):
                 + ". Per document 4 conversion cases (class/value tree via json_to_cel, via CELJSONDecoder; type-strict round trip via json.dumps and via json.dump "
                 "with CELJSONEncoder) and, per runner, one navigation case per (valid non-empty path, spelling) with [i], [\"k\"] and .k for identifier keys. "
                 "Encoder cases: whole-second instants x 5 offsets x 4 contexts, whole-second durations x 2 constructors x contexts, every byte string over A_b "
-                "up to length " + ("4" if ctx.thorough else "3") + " x 3 contexts. A case is non-trivial unless it has fractional seconds (UNSPEC); "
-                "cases are distinct by construction (strata are disjoint by depth)")
+                "up to length " + ("4" if ctx.thorough else "3") + " x 3 contexts. Histories: every sequence of <= %d operations (encode | iterencode of one of %d documents) on ONE CELJSONEncoder "
+                "object (and decode on ONE CELJSONDecoder object), the last step judged. A case is non-trivial unless it has fractional seconds (UNSPEC); "
+                "cases are distinct by construction (strata are disjoint by depth)") % (H_MAXLEN, len(H_DOCS))
     ctx.assumptions = ["values, keys and shapes outside the alphabets are not explored; integers stay within int64",
                        "deeper strata use reduced scalar/key alphabets (listed in the rule); object key order is the alphabet's order only",
                        "json.dump (iterencode route) is read as 'serialising with the library's JSON encoder' alongside json.dumps",
@@ -602,7 +668,8 @@ def run(ctx):
     if n_ts != len(instants(ctx.tier)):
         raise runner.HarnessError(f"instant alphabet has {len(instants(ctx.tier))} members, closed form says {n_ts}")
     enc_tasks = [(ctx.tier, what, lo, hi) for what, n in (("timestamp", n_ts), ("duration", n_du), ("bytes", n_by)) for lo, hi in runner.shards(n, 16)]
-    ctx.run_shards(plain_shard, [("conv", t) for t in conv_tasks] + [("enc", t) for t in enc_tasks])
+    ctx.run_shards(plain_shard, [("conv", t) for t in conv_tasks] + [("enc", t) for t in enc_tasks]
+                   + [("hist", (lo, hi)) for lo, hi in runner.shards(hist_count(), 8)])
     # interpreter-kind and compiled-kind environments never share a process (DESIGN 2.6)
     for rk in ("I", "C"):
         ctx.run_shards(nav_shard, [t + (rk,) for t in nav_tasks])
@@ -622,6 +689,8 @@ def run(ctx):
     spaces["enc:duration"]["cardinality"] = n_du * 7
     spaces["enc:bytes"]["cardinality"] = n_by * 3
     expected_cases += n_ts * 4 + n_du * 7 + n_by * 3
+    spaces["histories:encoder-decoder-reuse"]["cardinality"] = hist_count()
+    expected_cases += hist_count()
     ctx.coverage_extra["expected_cases"] = expected_cases
     ctx.coverage_extra["documents"] = sum(s.cardinality()[0] for s in strata)
     bad = {k: v for k, v in spaces.items() if v["cardinality"] != v["enumerated"]}
@@ -647,6 +716,17 @@ def replay(w):
         o = celrun.Prog(rk, text).eval({"doc": adapter.json_to_cel(doc)})
         print(f"runner {rk}: {text} with doc = json_to_cel({doc!r})\n  expected {outcome.short(exp)}\n  observed {outcome.short(o)}")
         hits = [] if nav_agrees(o, exp) else [{"detail": "navigation does not reach the element"}]
+    elif chk == "history":
+        hist = [(m, H_DOCS.index(d) if d in H_DOCS and type(H_DOCS[H_DOCS.index(d)]) is type(d) else [i for i, x in enumerate(H_DOCS) if jsonref.strict_equal(x, d)][0]) for m, d in wit["history"]]
+        steps = run_history(adapter, hist)
+        r, d = steps[-1]
+        doc = H_DOCS[hist[-1][1]]
+        print("  last step:", r, "decoded:", d[0])
+        hits = []
+        if r[0] == "exc" or jsonref.first_diff(doc, json.loads(r[1])):
+            hits.append({"detail": f"encoder output {r[1]!r} for {doc!r}"})
+        if d[0] == "exc" or jsonref.desc_diff(jsonref.expected_desc(doc), describe(d[1])):
+            hits.append({"detail": f"decoder result for {doc!r}"})
     elif chk == "enc-timestamp":
         check_ts(part, ct, adapter, tuple(wit["civil"]), wit["offset_minutes"], wit["microsecond"], wit["ctx"])
         hits = part.violations
